@@ -41,10 +41,14 @@ type C19World struct {
 	Ops       []C19Op `json:"ops"`
 }
 
-const c19Keys = 4
+const c19Keys = 5
 
-var c19KeyNames = []string{"a", "b", "c\"q", "d"}
-var c19ConsKeys = []constraint.Type{constraint.MinConstraintType, constraint.MaxConstraintType, constraint.TypeConstraintType, constraint.EnumConstraintType}
+// The empty string is a key like any other (and key 0, so that the enumerated
+// histories use it). Keys are valid UTF-8 (JSON cannot carry anything else) but otherwise unusual:
+// control characters, DEL, quote, backslash, HTML-sensitive characters, a line
+// separator, a non-BMP rune and a non-printable rune above U+FFFF.
+var c19KeyNames = []string{"", "b\x01\x7f\a", "c\"q\\</&", "d\u2028é😀\U000e0001", "a"}
+var c19ConsKeys = []constraint.Type{constraint.MinLengthConstraintType, constraint.MaxConstraintType, constraint.TypeConstraintType, constraint.EnumConstraintType, constraint.KeysCaseInsensitiveConstraintType}
 
 // ---- reference model: insertion-ordered dictionary ---------------------------
 
